@@ -255,6 +255,15 @@ def check_config(cfg, w, rep):
     is_async = not cfg.startswith("sync")
     _import_c02(cfg, w, rep)
     check_async_flush(cfg, w, rep)
+    # R6: a future of one of the runtimes' filesystem functions that is created and dropped without `.await` never runs —
+    # neither the operation nor its error exists
+    for e in w.inv.unawaited:
+        lf_ = prog.owner_fn(e.body)
+        rep.violation("R6:%s:%s" % (fn_key(lf_), e.kind),
+                      "`%s` creates the future of `%s` and drops it without `.await`: the %s never happens and its failure can never be "
+                      "reported" % (short(lf_.path), norm_callee(e.term.callee.path), e.kind), loc=e.loc(), config=cfg, rule="R6-unawaited-future")
+    if not w.inv.unawaited and is_async:
+        rep.ob(cfg, "R6-unawaited-future", "zero-count", "every future of a runtime filesystem function is awaited, returned or handed on")
     n_src = 0
     n_tol = 0
     for lf in prog.fns.values():
